@@ -156,11 +156,25 @@ def is_field(fn, fld, base_d=None):
     return f
 
 
-def edges_with_fact(fn, pred):
-    """yield (src_pt, dst_pt, expr, pol) for CFG edges whose fact satisfies pred(expr, pol)"""
+def edges_with_fact(fn, pred, live_only=True):
+    """yield (src_pt, dst_pt, expr, pol) for CFG edges whose fact satisfies pred(expr, pol); edges that only lead into a
+    failed assertion (no function exit reachable) are skipped"""
     cfg = fn.cfg
+    if live_only and not hasattr(cfg, "_can_exit"):
+        # backwards reachability from the exits
+        can = set(cfg.exit_points())
+        work = list(can)
+        while work:
+            x = work.pop()
+            for pp, lab in cfg.preds.get(x, []):
+                if pp not in can:
+                    can.add(pp)
+                    work.append(pp)
+        cfg._can_exit = can
     for p, outs in cfg.edges.items():
         for q, lab in outs:
+            if live_only and q not in cfg._can_exit:
+                continue
             for e, pol in cfg.facts(lab):
                 if pred(e, pol):
                     yield p, q, e, pol
